@@ -1,8 +1,8 @@
-(* Engine Chan: with the proposed repair (wake every registered sender on recv) no sender is
+(* Engine Chan: since the repair 904d17adb85 (wake every registered sender on recv) no sender is
    ever stranded -- for EVERY executor policy (spurious polls, cancelled senders), any number of
    outstanding sends per task, any capacity, all label sequences. *)
 From Coq Require Import List Arith Bool NArith Lia.
-From HV Require Import Chan.ModelMpsc Chan.ModelMpscFixed Chan.PMpscLive.
+From HV Require Import Chan.ModelMpsc Chan.PMpscLive.
 Import ListNotations.
 
 Record FInv (s : state) : Prop := mkFInv {
@@ -80,9 +80,9 @@ Proof.
   destruct (Nat.eqb _ 0); inversion St; subst; cbn; repeat split; reflexivity.
 Qed.
 
-Lemma finv_step : forall p s l s' o, FInv s -> step_fixed p s l = Some (s', o) -> FInv s'.
+Lemma finv_step : forall p s l s' o, FInv s -> step p s l = Some (s', o) -> FInv s'.
 Proof.
-  intros p s l s' o I St. destruct l; cbn [step_fixed] in St.
+  intros p s l s' o I St. destruct l.
   - (* Poll *)
     cbn [step] in St.
     destruct (Nat.ltb t (ntasks s)) eqn:Lt; [|discriminate]. apply Nat.ltb_lt in Lt.
@@ -100,14 +100,14 @@ Proof.
       * rewrite upd_other in W by assumption. apply B. apply (f_wait s I); assumption.
     + exact A.
   - (* PollRx *)
-    destruct (_ && _) in St; [|discriminate].
     destruct (buf s) as [|v b'] eqn:Bf.
     + destruct (pollrx_empty _ _ _ _ St Bf) as (E1 & E2 & E3 & E4 & E5 & E6).
       constructor.
       * rewrite E1, E2, E6. apply (f_wait s I).
       * rewrite E1, E3, E4, E5. intros H. destruct (f_full s I H) as [X Y]. split; [exact X|].
         rewrite Bf in Y. exact Y.
-    + inversion St; subst; clear St. constructor; cbn.
+    + cbn [step] in St. rewrite Bf in St. destruct (_ && _) in St; [|discriminate].
+      inversion St; subst; clear St. constructor; cbn.
       * intros u Hu W. destruct (in_dec Nat.eq_dec u (rev (sw s))) as [H|H].
         -- rewrite wake_all_in, waiting_set_woken in W by assumption. discriminate.
         -- rewrite wake_all_notin in W by assumption. exfalso. apply H. apply in_rev.
@@ -144,8 +144,8 @@ Proof.
   - intros H. contradiction.
 Qed.
 
-Theorem fix_no_strand : forall p c progs tr s,
-  reachable_fixed p (init c progs) tr s -> ~ Stranded s.
+Theorem no_strand_all : forall p c progs tr s,
+  reachable p (init c progs) tr s -> ~ Stranded s.
 Proof.
   intros p c progs tr s R.
   assert (I : FInv s).
